@@ -51,9 +51,13 @@ fn gen_cfg(ctx: &Ctx, rng: &mut Rng, text_entries: bool) -> (Xcfg, comm::ScriptI
         delay_us: if rng.chance(300) { *rng.pick(&[50i64, 500]) } else { 0 },
         vclock: None,
         max_polls_after_deadline: -1,
-        ops_budget: 0,
+        // logical runaway guard: every poll/read/write round moves at least one byte, retires a stream or fails, so the
+        // number of calls is bounded by a small multiple of the bytes that can move at all; beyond it the interposer
+        // fails the calls with a reserved errno and the exchange ends (a spinning parent is a verdict, not a timeout)
+        ops_budget: 8 * (si.max_total as i64 + input_len as i64) + 20_000,
         stop_when_done: true,
         kill_after: false,
+        eintr_permille: 0,
     };
     (cfg, si)
 }
@@ -102,6 +106,14 @@ fn judge_c01(ctx: &mut Ctx, cfg: &Xcfg, si: &comm::ScriptInfo, x: &Xres) {
         ctx.violation(&format!("C01/panic/{:?}", cfg.entry), "the exchange panicked", w(J::s(p)));
         return;
     }
+    if x.budget_hit {
+        ctx.violation(
+            &format!("C01/spin/op-budget/{}", si.family),
+            "the parent keeps issuing poll/read/write calls far beyond what the bytes exchanged can account for: it spins instead of finishing",
+            w(J::s(&format!("budget {} calls", cfg.ops_budget))),
+        );
+        return;
+    }
     if x.hard_timeout {
         ctx.inconclusive("exchange ended by the wall-clock watchdog without a certificate", describe(cfg, si));
         return;
@@ -137,6 +149,12 @@ fn judge_c02(ctx: &mut Ctx, cfg: &Xcfg, si: &comm::ScriptInfo, x: &Xres) {
     }
     let exp_err = pat_vec(cfg.seed, 2, 0, wrote2 as usize);
     let text = r.out.is_none() && r.err.is_none() && (r.out_str.is_some() || r.err_str.is_some() || matches!(cfg.entry, Entry::CommunicateStr | Entry::ReadString));
+    let aborted = x.budget_hit || (!r.ok && r.errno == Some(crate::plan::ABORT_ERRNO));
+    if aborted {
+        // the monitor ended a runaway exchange (C01's matter); what C02 can still say: was end-of-file ever sent?
+        eof_order_check(ctx, cfg, x, &w);
+        return;
+    }
     if !r.ok {
         // an error is a legitimate outcome only when the child closed its stdin before taking all the input (EPIPE)
         let epipe = r.err_kind == Some(ErrorKind::BrokenPipe);
@@ -237,52 +255,75 @@ fn judge_c02(ctx: &mut Ctx, cfg: &Xcfg, si: &comm::ScriptInfo, x: &Xres) {
                 ctx.violation("C02/eof-delayed", "the child wrote 64 MiB without seeing end-of-file on stdin: stdin was not closed right after the last input byte", w(J::Null));
             }
         }
-        // order check on the log: after the write that completes the input, close(stdin) follows within the same round
-        if x.fds.0 >= 0 && !inp.is_empty() && !x.overflow {
-            let fd = x.fds.0 as i64;
-            let mut total = 0u64;
-            let mut done_at: Option<usize> = None;
-            for (i, e) in x.events.iter().enumerate() {
-                if e.child == 0 && e.kind == k::WRITE && e.a[0] == fd && e.ret > 0 {
-                    total += e.ret as u64;
-                    if total == inp.len() as u64 {
-                        done_at = Some(i);
-                        break;
-                    }
-                }
-            }
-            if let Some(i) = done_at {
-                ctx.count("eof_order_checks", 1);
-                let mut polls = 0;
-                let mut reads = 0;
-                let mut closed = false;
-                for e in &x.events[i + 1..] {
-                    if e.child != 0 {
-                        continue;
-                    }
-                    if e.kind == k::CLOSE && e.a[0] == fd {
-                        closed = true;
-                        break;
-                    }
-                    if e.kind == k::POLL {
-                        polls += 1;
-                    }
-                    if e.kind == k::READ {
-                        reads += 1;
-                    }
-                }
-                if !closed || polls > 0 || reads > 2 {
-                    ctx.violation(
-                        "C02/eof-not-immediate",
-                        &format!("after the last input byte was written stdin was {} ({} poll(s), {} read(s) in between)", if closed { "closed late" } else { "never closed during the exchange" }, polls, reads),
-                        w(J::Null),
-                    );
+        eof_order_check(ctx, cfg, x, &w);
+    }
+    if x.short_fired > 0 {
+        ctx.count("short_read_write_injections_fired", x.short_fired as i64);
+    }
+}
+
+/// Order check on the interposed log: close(stdin) must follow the write that completes the input within the same
+/// round (no further poll in between); for an empty input at most one poll round may precede the close.
+fn eof_order_check(ctx: &mut Ctx, cfg: &Xcfg, x: &Xres, w: &dyn Fn(J) -> J) {
+    let inp = match &cfg.input {
+        Some(i) => i,
+        None => return,
+    };
+    if x.fds.0 < 0 || x.overflow {
+        return;
+    }
+    let fd = x.fds.0 as i64;
+    // where the communicate phase starts: the first poll/write/read after the launch
+    let start = x.events.iter().position(|e| e.child == 0 && (e.kind == k::POLL || (e.kind == k::WRITE && e.a[0] == fd))).unwrap_or(x.events.len());
+    let mut total = 0u64;
+    let mut done_at: Option<usize> = if inp.is_empty() { Some(start.saturating_sub(1)) } else { None };
+    if !inp.is_empty() {
+        for (i, e) in x.events.iter().enumerate() {
+            if e.child == 0 && e.kind == k::WRITE && e.a[0] == fd && e.ret > 0 {
+                total += e.ret as u64;
+                if total == inp.len() as u64 {
+                    done_at = Some(i);
+                    break;
                 }
             }
         }
     }
-    if x.short_fired > 0 {
-        ctx.count("short_read_write_injections_fired", x.short_fired as i64);
+    let i = match done_at {
+        Some(i) => i,
+        None => return,
+    };
+    ctx.count("eof_order_checks", 1);
+    let allowed_polls = if inp.is_empty() { 1 } else { 0 };
+    let mut polls = 0;
+    let mut reads = 0;
+    let mut closed = false;
+    for e in x.events.iter().skip(i + 1) {
+        if e.child != 0 {
+            continue;
+        }
+        if e.kind == k::CLOSE && e.a[0] == fd {
+            closed = true;
+            break;
+        }
+        if e.kind == k::POLL {
+            polls += 1;
+        }
+        if e.kind == k::READ {
+            reads += 1;
+        }
+    }
+    if !closed || polls > allowed_polls || reads > 2 + 2 * allowed_polls {
+        ctx.violation(
+            if inp.is_empty() { "C02/eof-not-immediate/empty-input" } else { "C02/eof-not-immediate" },
+            &format!(
+                "after the last input byte was written ({} bytes of input) stdin was {} ({} poll(s), {} read(s) in between)",
+                inp.len(),
+                if closed { "closed late" } else { "never closed during the exchange" },
+                polls,
+                reads
+            ),
+            w(J::Null),
+        );
     }
 }
 
@@ -361,9 +402,10 @@ pub fn run(ctx: &mut Ctx, which: Which) {
                 delay_us: 0,
                 vclock: Some((rng.range(2, 4) as i64, 0)),
                 max_polls_after_deadline: -1,
-                ops_budget: 0,
+                ops_budget: 8 * (n1 as i64 + input.len() as i64) + 200_000,
                 stop_when_done: true,
                 kill_after: false,
+        eintr_permille: 0,
             };
             let x = comm::exchange(ctx, &cfg);
             ctx.count("exchanges", 1);
@@ -491,9 +533,10 @@ pub fn run(ctx: &mut Ctx, which: Which) {
                 delay_us: 0,
                 vclock: None,
                 max_polls_after_deadline: -1,
-                ops_budget: 0,
+                ops_budget: 8 * (n1 as i64 + 80_000) + 20_000,
                 stop_when_done: true,
                 kill_after: false,
+        eintr_permille: 0,
             };
             let si = comm::ScriptInfo { script: cfg.script.clone(), reads_all: true, family: "text-and-special-bytes", ..Default::default() };
             let x = comm::exchange(ctx, &cfg);
